@@ -6,6 +6,9 @@ import os
 import sys
 import time
 import traceback
+import warnings
+
+warnings.filterwarnings('ignore')       # third-party deprecation chatter of the repository's own dependencies
 
 HERE = os.path.dirname(os.path.dirname(os.path.abspath(__file__)))
 sys.path.insert(0, HERE)
@@ -60,7 +63,7 @@ def main(argv):
     pid = args.prop
     t0 = time.time()
     try:
-        rc = run(pid, args.tier, seed, args, t0)
+        rc = replay_file(pid, args.replay, args.tier, seed) if args.replay else run(pid, args.tier, seed, args, t0)
     except SystemExit:
         raise
     except Exception:
@@ -68,6 +71,69 @@ def main(argv):
         print('CHECKER-FAULT property=%s' % pid)
         rc = 3
     sys.exit(rc)
+
+
+def replay_file(pid, path, tier, seed):
+    """bin/check Cxx --replay <file>: re-derive the violation recorded in a replay file on the CURRENT tree.
+    Exit 1 when it reproduces (the obligation is refuted again and the native run again produces the refuted outcome, or the
+    table / bounded case fails again), 0 when it no longer does, 2 when the obligation is open but no replayable input is found."""
+    import contracts        # noqa
+    from pyvc import tables, replay as RP
+    with open(path) as f:
+        d = json.load(f)
+    name = d.get('obligation')
+    P = importlib.import_module('props.' + pid).PROP
+    print('replaying %s (property %s)' % (name, pid))
+    if d.get('table'):
+        for tname in P.get('tables', []):
+            for t in getattr(tables, tname)():
+                if t['name'] == name:
+                    print('table entry %s: %s %s' % (name, 'ok' if t['ok'] else 'FAILS', t.get('witness') or ''))
+                    return 0 if t['ok'] else 1
+        print('table entry no longer generated')
+        return 2
+    if d.get('bounded'):
+        for bname in P.get('bounded', []):
+            b = importlib.import_module('bounded.' + bname).run(tier, seed)
+            for v in b.get('violations', []):
+                if v['name'] == name:
+                    print('bounded case fails again: %s' % json.dumps(v, default=str)[:2000])
+                    return 1
+        print('bounded case passes on the current tree')
+        return 0
+    short = name.split('/', 1)[0]
+    quals = list(P['functions'])
+    if P.get('function_generator'):
+        quals += getattr(importlib.import_module(P['function_generator'][0]), P['function_generator'][1])(tier)
+    cands = [q for q in quals if q.split(':', 1)[1] == short]
+    if not cands:
+        print('no function under contract is named %s' % short)
+        return 2
+    eng = engine.Engine()
+    fr = eng.verify_function(cands[0])
+    if fr.error:
+        print('UNDECIDED %s' % fr.error)
+        return 2
+    mine = [o for o in fr.obligations if o.name == name]
+    res = solve.discharge(mine, tier)
+    if mine and all(r['verdict'] == 'unsat' for r in res):
+        print('obligation %s is discharged on the current tree (%d instances)' % (name, len(mine)))
+        return 0
+    for K in ([d['bound_K']] if d.get('bound_K') else []) + [2, 3]:
+        frb = eng.verify_function(cands[0], bound=K)
+        if frb.error:
+            continue
+        for o in frb.obligations:
+            if o.info.get('trivial') or not (o.name == name or (('/inv-' in name or '/frame' in name or '/pre[' in name)
+                                                                 and o.kind in ('post', 'raises'))):
+                continue
+            rr = RP.refute_and_replay(o, frb, K, pid)
+            if rr and rr.get('replayed'):
+                print(json.dumps({k: rr.get(k) for k in ('input', 'predicted_outcome', 'native_outcome', 'what', 'clause')},
+                                 indent=1, default=str))
+                return 1
+    print('obligation %s is not discharged, and no replayable failing input was found' % name)
+    return 2
 
 
 def run(pid, tier, seed, args, t0):
@@ -85,7 +151,7 @@ def run(pid, tier, seed, args, t0):
         quals += getattr(importlib.import_module(P['function_generator'][0]), P['function_generator'][1])(tier)
     # one worker per function: VC generation and solving of different functions run in parallel
     import multiprocessing as mp
-    jobs = [(q, pid, tier) for q in quals]
+    jobs = [(q, pid, tier, max(1, 16 // max(1, len(quals)))) for q in quals]
     nproc = min(16, max(1, len(jobs)))
     if nproc > 1:
         with mp.get_context('fork').Pool(nproc) as pool:
@@ -194,7 +260,8 @@ def run(pid, tier, seed, args, t0):
             json.dump({'obligations': all_names}, f, indent=1)
     missing = []
     if os.path.exists(ledger_path):
-        led = json.load(open(ledger_path))
+        with open(ledger_path) as f:
+            led = json.load(f)
         missing = sorted(set(led['obligations']) - set(all_names))
         for m in missing:
             undecided.append('obligation %s of the ledger was not generated (function restructured or clause unreachable)' % m)
@@ -264,7 +331,7 @@ def run(pid, tier, seed, args, t0):
         'coverage': {
             'obligations': n_obl, 'discharged': n_dis,
             'checker_cmd': 'bin/check %s --tier %s' % (pid, tier),
-            'trusted_base': ['z3 %s' % z3.get_version_string(), 'cvc5 1.0.3', 'z3 4.8.12', 'PyVC (this directory)',
+            'trusted_base': ['z3 %s' % z3.get_version_string(), 'cvc5 1.0.3', 'PyVC (this directory)',
                              'CPython ast'] + ['contract(trusted): ' + q for q in trusted],
             'functions_under_contract': [fr.meta for fr in frs if fr.meta is not None],
             'paths_explored': sum(fr.paths for fr in frs),
@@ -335,7 +402,7 @@ class ObSummary(object):
 
 def _verify_worker(job):
     """runs in a forked worker: generate the obligations of one function and discharge them"""
-    q, pid, tier = job
+    q, pid, tier, nthreads = job
     eng = engine.Engine()
     fr = eng.verify_function(q)
     c = SP.CONTRACTS.get(q)
@@ -353,7 +420,7 @@ def _verify_worker(job):
             nforeign += 1
             continue
         keep.append(o)
-    res = solve.discharge(keep, tier, cross=(tier == 'thorough'), procs=1)
+    res = solve.discharge(keep, tier, cross=(tier == 'thorough'), procs=nthreads, threads=True)
     s = z3.Solver()
     s.set('timeout', 5000)
     s.add(*getattr(fr, 'pre', []))
@@ -372,7 +439,8 @@ def _verified_anywhere():
     for f in glob.glob(os.path.join(HERE, 'props', 'C*.py')):
         try:
             ns = {}
-            exec(open(f).read(), ns)
+            with open(f) as fh:
+                exec(fh.read(), ns)
             out |= set(ns['PROP'].get('functions', []))
         except Exception:
             pass
